@@ -2,11 +2,12 @@
 source to every destination, each finishes exactly when its inputs do; stream.Merge reports the first
 error and its goroutines finish after Close."""
 import vlib
+from scale_common import ScaleSpec
 from merge_common import ChansSpec, SMergeSpec
 
 PROP_FILES = ["C12"]
 
-SPECS = {"chans": (ChansSpec(), "harness_merge", "runner-merge"),
+SPECS = {"scale": (ScaleSpec(['chans-merge']), "harness", "runner"), "chans": (ChansSpec(), "harness_merge", "runner-merge"),
          "smerge": (SMergeSpec(), "harness_merge", "runner-merge")}
 
 
@@ -17,8 +18,12 @@ def run(ctx):
         ctx.violation("harness-build", "the harness does not build against the current tree: " + out[-1500:],
                       {"build_output": out[-4000:]}, failing_input=False)
         return ctx.finish()
-    for tag, (spec, _, _) in SPECS.items():
-        vlib.seq_differential(ctx, spec, exe, proofs_ok, tag=tag)
+    for tag, (spec, mod_, _) in SPECS.items():
+        if mod_ == "harness_merge":
+            vlib.seq_differential(ctx, spec, exe, proofs_ok, tag=tag)
+    okS, outS, exeS = vlib.build_runner()
+    if okS:
+        vlib.seq_differential(ctx, ScaleSpec(['chans-merge']), exeS, proofs_ok, tag="scale")
     vlib.merge_parts(ctx, "cases = controller scripts run against the real code: chans.Merge with 0,1,2,3,4,5,7 inputs (all four code paths) and "
                      "chans.Replicate with 0-3 destinations over buffered/unbuffered channels, producers and consumers that move only on the controller's "
                      "commands (send/close order, bursts, inputs that close at once or stay silent, slow or absent consumers); stream.Merge over 0-4 gated "
